@@ -216,8 +216,27 @@ class FiniteEval:
             nm = f.id if isinstance(f, ast.Name) else (f.attr if isinstance(f, ast.Attribute) and isinstance(f.value, ast.Name) and f.value.id == 'self' else None)
             fnode = self.resolver(nm) if nm else None
             if fnode is not None and not (isinstance(f, ast.Name) and nm in env):
-                args = [self.ev(a, env) for a in n.args]
-                kwargs = {k.arg: self.ev(k.value, env) for k in n.keywords}
+                try:
+                    args = [self.ev(a, env) for a in n.args]
+                    kwargs = {k.arg: self.ev(k.value, env) for k in n.keywords}
+                except Unknown:
+                    # an argument without an abstract value of its own (the whole list, the position): a helper that is one
+                    # `return <expression>` is evaluated by name, i.e. with the argument expressions substituted for its parameters
+                    body = [st for st in fnode.body if not (isinstance(st, ast.Expr) and isinstance(st.value, ast.Constant))]
+                    params = [a.arg for a in fnode.args.args if a.arg != 'self']
+                    if len(body) == 1 and isinstance(body[0], ast.Return) and body[0].value is not None and len(params) == len(n.args) and not n.keywords \
+                            and all(isinstance(a, (ast.Name, ast.Constant, ast.BinOp, ast.Call, ast.Subscript, ast.Attribute)) for a in n.args):
+                        import copy
+                        mapping = dict(zip(params, n.args))
+                        class Sub(ast.NodeTransformer):
+                            def visit_Name(self, node):
+                                if node.id in mapping and isinstance(node.ctx, ast.Load):
+                                    return copy.deepcopy(mapping[node.id])
+                                return node
+                        expr = Sub().visit(copy.deepcopy(body[0].value))
+                        ast.fix_missing_locations(expr)
+                        return self.ev(expr, env)
+                    raise
                 return self.call_function(fnode, args, kwargs, env.get('self'))
         if isinstance(f, ast.Name):
             args = [self.ev(a, env) for a in n.args]
